@@ -19,6 +19,7 @@ RULE = ("one run = the real EtherXDP dispatcher byte code (generated and attache
         "pass; distinct = distinct abstract states (registered?, counter parity, multiset "
         "of stamp-counter of the in-flight frames); this is seeded search, not the "
         "exhaustive breadth-first exploration the property text mentions")
+RULE += '; since the 4th session a fifth of the frames are longer than 255 bytes and groups may be unregistered in mid-history (slot and books empty, frames under way judged as unregistered)'
 COMPONENTS = {
     "real": ["ebpfcat.ebpfcat.EtherXDP.program byte code", "FastEtherCat.connect/"
              "register_sync_group", "XDP.attach/load, ArrayMap.init, prog array handling "
